@@ -553,4 +553,130 @@ theorem closed_eq_layout (P : Params) (f : Flags) (width : Nat) (cp : Option Nat
 
 end
 
+/-! ### the whole conversion -/
+
+section
+open List
+
+theorem convBase_natAbs (conv : Conv) : (convBase conv).natAbs = conv.base := by cases conv <;> rfl
+theorem convBase_neg (conv : Conv) : decide (convBase conv < 0) = conv.upper := by cases conv <;> rfl
+
+theorem conv_base_cases (conv : Conv) (P : Params) (h : P.base = convBase conv) :
+    (conv.base = 10 ∧ P.base = 10) ∨ (conv.base = 8 ∧ P.base = 8) ∨ (conv.base = 16 ∧ P.base = 16 ∧ conv.upper = false) ∨
+    (conv.base = 16 ∧ P.base = -16 ∧ conv.upper = true) := by
+  cases conv <;> simp_all [convBase, Conv.base, Conv.upper]
+
+theorem cPrec_precInt (p : PrecArg) (hp : p ≠ .dot) :
+    precInt p = (match cPrec p with | none => -1 | some n => (n : Int)) := by
+  cases p with
+  | none => rfl
+  | dot => exact absurd rfl hp
+  | num n => rfl
+  | star n =>
+    by_cases hn : n < 0
+    · simp [precInt, cPrec, hn]
+    · simp [precInt, cPrec, hn]; omega
+
+theorem cFlags_minus (fl : List Char) (w : WidthArg) : (cFlags fl w).minus = true ↔ leftP fl w := by
+  cases w <;> simp [cFlags, leftP, negStar]
+theorem cFlags_zero (fl : List Char) (w : WidthArg) : (cFlags fl w).zero = true ↔ '0' ∈ fl := by simp [cFlags]
+theorem precInt_neg (p : PrecArg) (hp : p ≠ .dot) : precInt p < 0 ↔ (cPrec p).isNone = true := by
+  rw [cPrec_precInt p hp]; cases cPrec p <;> simp
+
+theorem just_bridge (fl : List Char) (w : WidthArg) (p : PrecArg) (hp : p ≠ .dot) :
+    (if leftP fl w then Justify.left else if '0' ∈ fl ∧ precInt p < 0 then .internal else .right) =
+      (if (cFlags fl w).minus then Justify.left else if ((cFlags fl w).zero && (cPrec p).isNone) then .internal else .right) := by
+  simp only [← cFlags_minus, ← cFlags_zero fl w, precInt_neg p hp, Bool.and_eq_true]
+
+theorem fill_bridge (fl : List Char) (w : WidthArg) (p : PrecArg) (hp : p ≠ .dot) :
+    (if ¬ leftP fl w ∧ '0' ∈ fl ∧ precInt p < 0 then '0' else ' ') =
+      (if ¬ (cFlags fl w).minus ∧ ((cFlags fl w).zero && (cPrec p).isNone) then '0' else ' ') := by
+  simp only [← cFlags_minus, ← cFlags_zero fl w, precInt_neg p hp, Bool.and_eq_true]
+
+theorem doprntIntegerG_signed (P : Params) (neg : Bool) (ds : List Char) (hhead : ds.head? ≠ some '-') :
+    doprntIntegerG false P ((if neg then ['-'] else []) ++ ds) =
+      doprntIntegerCore false P (if neg then some '-' else P.sign)
+        (if ds.head? = some '0' ∧ P.prec = 0 then ds.tail else ds) (showbaseStr P) := by
+  cases neg <;> simp [doprntIntegerG, hhead]
+
+/-- For every value of every size: the bytes the model of `gmp_printf ("%<fl><w><p>Z<conv>", v)` produces are
+    the C99 layout rules applied to the mpz_get_str digits, with o/x/X signed. -/
+theorem layoutModel_eq_spec (fl : List Char) (w : WidthArg) (p : PrecArg) (conv : Conv) (v : Int)
+    (hp : p ≠ .dot) (hx : ¬ ('#' ∈ fl ∧ cPrec p = some 0 ∧ v = 0 ∧ conv.base = 16)) :
+    layoutModel fl w p conv v = gmpLayoutSpec (cFlags fl w) (cWidth w) (cPrec p) conv v := by
+  obtain ⟨hbase, hshow, hsign, hwidth, hprec, hjust, hfill⟩ := specParams_fields fl w p conv
+  unfold layoutModel layoutModelG
+  generalize specParams false fl w p conv = P at *
+  have hb2 : 2 ≤ conv.base := by cases conv <;> decide
+  have hb36 : conv.base ≤ 36 := by cases conv <;> decide
+  -- the digit string
+  unfold mpzGetStr
+  rw [convBase_natAbs, convBase_neg]
+  generalize hds : natDigits conv.base conv.upper v.natAbs = ds
+  have hmem : ∀ c ∈ ds, c ≠ '/' ∧ c ≠ '-' := fun c hc =>
+    digitTab_ne conv.upper c (by rw [← hds] at hc; exact natDigits_mem _ _ hb2 hb36 _ c hc)
+  have hne : ds ≠ [] := by rw [← hds]; exact natDigits_ne_nil _ _ _
+  have hhead : ds.head? ≠ some '-' := by
+    cases ds with
+    | nil => simp
+    | cons a t => simp; exact (hmem a mem_cons_self).2
+  have hsgn : (if v < 0 then ['-'] else []) = (if decide (v < 0) then ['-'] else ([] : List Char)) := by
+    by_cases hv : v < 0 <;> simp [hv]
+  rw [hsgn, doprntIntegerG_signed P _ ds hhead]
+  -- the string after "precision 0 prints no digits for 0"
+  have hgetD : (cPrec p).getD 1 = 0 ↔ P.prec = 0 := by
+    rw [hprec, cPrec_precInt p hp]; cases cPrec p <;> simp
+  have ht : (if ds.head? = some '0' ∧ P.prec = 0 then ds.tail else ds) =
+      (if v.natAbs = 0 ∧ (cPrec p).getD 1 = 0 then [] else ds) := by
+    by_cases hm : v.natAbs = 0
+    · have : ds = ['0'] := by rw [← hds, hm]; exact natDigits_zero _ _
+      subst this; simp [hm, hgetD]
+    · have := natDigits_head_ne_zero conv.base conv.upper hb2 hb36 v.natAbs hm
+      rw [hds] at this
+      simp [hm, this]
+  rw [ht]
+  generalize htdef : (if v.natAbs = 0 ∧ (cPrec p).getD 1 = 0 then [] else ds) = t
+  have hts : splitSlash t = none := by
+    apply splitSlash_none
+    intro c hc; rw [← htdef] at hc
+    split at hc
+    · cases hc
+    · exact (hmem c hc).1
+  rw [core_bytes P _ t _ hts]
+  -- the two sides of closed_eq_layout
+  have hsg : (if decide (v < 0) = true then some '-' else P.sign).toList = signChars (cFlags fl w) (decide (v < 0)) := by
+    rw [hsign]
+    by_cases hv : v < 0 <;> by_cases h1 : '+' ∈ fl <;> by_cases h2 : ' ' ∈ fl <;> simp [hv, h1, h2, signChars, cFlags]
+  rw [hsg]
+  unfold gmpLayoutSpec layoutCore
+  rw [hds, htdef]
+  apply closed_eq_layout
+  · exact conv_base_cases conv P hbase
+  · rw [hshow]; by_cases h : '#' ∈ fl <;> simp [h, cFlags]
+  · exact hwidth
+  · rw [hprec]; exact cPrec_precInt p hp
+  · rw [hjust]; exact just_bridge fl w p hp
+  · rw [hfill]; exact fill_bridge fl w p hp
+  · intro hc
+    rw [← htdef, hc]; simp
+    exact Nat.pos_of_ne_zero (fun h => hne (List.length_eq_zero_iff.mp h))
+  · intro hh h16
+    have hh' : '#' ∈ fl := by simpa [cFlags] using hh
+    by_cases hm : v.natAbs = 0
+    · have hv0 : v = 0 := by omega
+      have hp0 : ¬ (cPrec p).getD 1 = 0 := by
+        intro h0
+        apply hx
+        refine ⟨hh', ?_, hv0, h16⟩
+        cases hcp : cPrec p with
+        | none => rw [hcp] at h0; simp at h0
+        | some n => rw [hcp] at h0; simp at h0; rw [h0]
+      have : ds = ['0'] := by rw [← hds, hm]; exact natDigits_zero _ _
+      rw [← htdef]; simp [hm, hp0, this]
+    · have := natDigits_head_ne_zero conv.base conv.upper hb2 hb36 v.natAbs hm
+      rw [hds] at this
+      rw [← htdef]; simp [hm, this]
+
+end
+
 end Mpir.Printf
